@@ -273,6 +273,59 @@ func CheckFlow(r *Run) []Finding {
 		}
 	}
 
+	// --- cancellation: nothing that could only start after the cancel is started -----
+	switch scn.CancelK {
+	case CPre:
+		for k, evs := range cs {
+			if len(evs) > 0 {
+				add("C09", "%s unit %d was invoked although the flow's context was cancelled before the call", units[k.unit], k.unit)
+			}
+		}
+	case CInUnit:
+		// tasks (and predicates) that transitively depend on the cancelling unit
+		canc := scn.CancelU
+		down := map[int]bool{}
+		provUnit := func(t TypeRef) (int, bool) { u, ok := m.provider[t.Key()]; return u, ok && u >= 0 }
+		predOwner := map[int]int{} // pred unit -> task unit
+		for i := range s.Tasks {
+			if s.Tasks[i].Pred != nil {
+				predOwner[s.Tasks[i].Pred.Unit] = s.Tasks[i].Unit
+			}
+		}
+		for i := range s.Tasks {
+			t := &s.Tasks[i]
+			dep := func(ins []TypeRef) bool {
+				for _, in := range ins {
+					if pu, ok := provUnit(in); ok && (pu == canc || down[pu]) {
+						return true
+					}
+				}
+				return false
+			}
+			if t.Pred != nil {
+				if dep(t.Pred.In) {
+					down[t.Pred.Unit] = true
+				}
+				if t.Pred.Unit == canc || down[t.Pred.Unit] {
+					down[t.Unit] = true
+				}
+			}
+			if dep(t.In) {
+				down[t.Unit] = true
+			}
+		}
+		if len(cs[callKey{canc, -1}]) > 0 {
+			for u := range down {
+				if len(cs[callKey{u, -1}]) > 0 {
+					add("C09", "%s unit %d was invoked although it could only start after unit %d had cancelled the context", units[u], u, canc)
+				}
+			}
+			if r.Err == nil {
+				add("C09", "the flow returned nil although unit %d cancelled its context while it was running", canc)
+			}
+		}
+	}
+
 	// --- ordering (C01 at the level of generated code) --------------------------
 	endOf := func(u int) int64 {
 		if evs := cs[callKey{u, -1}]; len(evs) > 0 {
@@ -549,6 +602,39 @@ func CheckParallel(r *Run) []Finding {
 	}
 	for _, mp := range s.Maps {
 		checkColl("map", mp.Unit, mp.Coll, false, true, mp.End)
+	}
+
+	// --- cancellation --------------------------------------------------------------------
+	switch scn.CancelK {
+	case CPre:
+		for k, evs := range cs {
+			if len(evs) > 0 {
+				add("C09", "unit %d was invoked although the parallel's context was cancelled before the call", k.unit)
+			}
+		}
+	case CInUnit:
+		ran := false
+		for k, evs := range cs {
+			if k.unit == scn.CancelU && len(evs) > 0 {
+				ran = true
+			}
+		}
+		if ran {
+			// an End hook depends on every element call of its collection
+			for _, sl := range s.Slices {
+				if sl.End != nil && sl.Unit == scn.CancelU && len(cs[callKey{sl.End.Unit, -1}]) > 0 {
+					add("C09", "SliceEnd unit %d was invoked although an element call of its collection had cancelled the context", sl.End.Unit)
+				}
+			}
+			for _, mp := range s.Maps {
+				if mp.End != nil && mp.Unit == scn.CancelU && len(cs[callKey{mp.End.Unit, -1}]) > 0 {
+					add("C09", "MapEnd unit %d was invoked although an element call of its collection had cancelled the context", mp.End.Unit)
+				}
+			}
+			if r.Err == nil {
+				add("C09", "the parallel returned nil although unit %d cancelled its context while it was running", scn.CancelU)
+			}
+		}
 	}
 
 	// --- returned error -----------------------------------------------------------------
